@@ -46,9 +46,36 @@ fn new_at(table_addr: u64, cr3: u64, slot: u64, e: u64) -> Vec<i128> {
     }
 }
 
+/// RecursivePageTable::new on a table reference whose address the harness cannot back with memory
+/// (upper-half addresses: recursive indices 256..511): a forked child calls the constructor; it either
+/// returns NotRecursive without touching the table (exit 43) or goes on to read CR3 (exit 42: the
+/// address was accepted as being of the recursive form), which the software CPU turns into an exit
+fn form_only(table_addr: u64) -> Vec<i128> {
+    unsafe {
+        let pid = libc::fork();
+        if pid == 0 {
+            softcpu::install_once();
+            softcpu::cpu().reset();
+            softcpu::EXIT_ON_CR3_READ.store(true, std::sync::atomic::Ordering::SeqCst);
+            let table: &mut PageTable = &mut *(table_addr as *mut PageTable);
+            let code = match catch(std::panic::AssertUnwindSafe(|| RecursivePageTable::new(table).map(|_| ()))) {
+                Some(Ok(())) => 45,
+                Some(Err(InvalidPageTable::NotRecursive)) => 43,
+                Some(Err(InvalidPageTable::NotActive)) => 44,
+                None => 46,
+            };
+            libc::_exit(code);
+        }
+        let mut st: libc::c_int = 0;
+        libc::waitpid(pid, &mut st, 0);
+        if libc::WIFEXITED(st) { vec![libc::WEXITSTATUS(st) as i128] } else { vec![-95] }
+    }
+}
+
 pub fn run(c: &[u64]) -> Vec<i128> {
     match c {
         [1, table_addr, cr3, slot, e] => new_at(*table_addr, *cr3, *slot, *e),
+        [5, table_addr] => form_only(*table_addr),
         [f @ 2..=4, page, r] => {
             let r16 = *r as u16;
             let res = catch(|| {
